@@ -108,6 +108,9 @@ func (p *Publish) Unpack(r io.Reader) error {
 	}
 	if p.Version == Version5 {
 		p.Properties = &Properties{}
+		if bufr.Len() == 0 { // the Property Length is not optional in PUBLISH
+			return codes.ErrMalformed
+		}
 		if err := p.Properties.Unpack(bufr, PUBLISH); err != nil {
 			return err
 		}
